@@ -389,8 +389,8 @@ def spec() -> Spec:
         generate=generate,
         extract=extract,
         nontrivial=nontrivial,
-        budget={"quick": 700, "thorough": 20000},
-        search_budget={"quick": 1500, "thorough": 20000},
+        budget={"quick": 500, "thorough": 12000},
+        search_budget={"quick": 1200, "thorough": 12000},
         divergence_is_violation=True,
         rule="one manifest per case (ops: decode(encode(m)), encode(m), decode(reference URI of m)); shapes: small, one counted list at "
              "0/1/254/255/256/257/300 entries, one string at 254..257 (8-bit fields) or 65534..65537 (16-bit fields), boundary and "
